@@ -81,4 +81,4 @@ package revolut2
 //@                 Commodity: tres("Get", old(tlen()) + 2), Quantity: tres("NewFromString", old(tlen()) + 3)})
 //@   ensures [C13] @balance: result == nil && tlen() == old(tlen()) + 7 ==> (amounts.Key{Date: tres("Parse", old(tlen()) + 1), Commodity: tres("Get", old(tlen()) + 2)} in p.balance)
 //@        && p.balance[amounts.Key{Date: tres("Parse", old(tlen()) + 1), Commodity: tres("Get", old(tlen()) + 2)}] == tres("NewFromString", old(tlen()) + 6)
-
+//@   ensures [C13] @text: result == nil && tlen() == old(tlen()) + 7 ==> quotable(dyn(targ("Add", 0, old(tlen()) + 5), "*transaction.Transaction").Description)
